@@ -116,7 +116,7 @@ def showLeases (b : Bucket) : String :=
   "/".intercalate (b.map fun (n, f) =>
     let ls := match kindOf f with
       | .mutable => Mutable.getLeases f
-      | .immutable => Imm.getLeases f
+      | .immutable => ImmL.getLeases f
       | .other => []
     s!"{n}=[" ++ ",".intercalate (ls.map showLease) ++ "]")
 
